@@ -19,6 +19,10 @@ import probes_gc
 THEOREM_MODULES = ["Yarel.Props.GcCollector", "Yarel.Props.C01", "Yarel.Props.CollectSites"]
 REQUIRED_THEOREMS = ["collections_start_only_in_allocate_raw", "every_collection_is_under_an_allocation", "collect_safe", "collect_complete", "collect_terminates", "label_covered", "schema_covers",
                      "schema_wellFormed", "c01_collect_safe"]
+# the three passes of a collection translated from memory.rs on every run (Props/FnsTie/GcPasses): they ARE the model's markRoots /
+# traceReferences / sweep, the functions `collect_safe` (nothing reachable from a root is swept) is proved about
+THEOREM_MODULES.append("Yarel.Props.FnsTie.GcPasses")
+REQUIRED_THEOREMS += ["sweep_tie", "sweep_keeps_exactly_black", "mark_roots_tie", "trace_references_tie", "collect_passes_are_the_model"]
 USES_GEN = True
 LEVEL = "proof"
 ASSUMPTIONS = [
